@@ -225,7 +225,13 @@ def r3_r4_order(ctx, rule3="C03.R3", rule4="C03.R4", with_insert: bool = False) 
     # ---- R3: root first, root is its own parent
     if helper is not None:
         # the helper starts from the root: its first emitted node is self.root
-        starts = [n for n in ast.walk(helper) if isinstance(n, (ast.Assign, ast.AnnAssign)) and n.value is not None and "self.root" in u(n.value)]
+        # the work list is seeded with the root before the traversal loop (an assignment, or a push onto the work list)
+        body_ = real_body(helper)
+        first_loop = max([i for i, n in enumerate(body_) if isinstance(n, (ast.While, ast.For)) and
+                          any(isinstance(x, ast.Attribute) and x.attr == "children" for x in ast.walk(n)) and
+                          any(call_name(c) in ("append", "extend") for c in calls_in(n))] or [len(body_)])
+        starts = [n for n in body_[:first_loop] if isinstance(n, (ast.Assign, ast.AnnAssign, ast.Expr)) and getattr(n, "value", None) is not None
+                  and "self.root" in u(n.value)]
         ctx.check(bool(starts), rule3, "Hugr._to_serial: root is listed first", file, helper.lineno,
                   "the emission order must start from self.root", helper, detail=u(starts[0])[:100] if starts else "")
     else:
